@@ -23,7 +23,7 @@ META = {
 
 THEOREMS = [("today_is_fixed", "table"), ("today_init_queue", "table"),
             ("one_response_per_request", "theorem"), ("never_more_than_one_response", "theorem"),
-            ("server_keeps_serving", "theorem"),
+            ("server_keeps_serving", "theorem"), ("cancelled_only_if_asked", "theorem"), ("responses_justified", "theorem"),
             ("bad_params_refuted", "refutation"), ("panic_refuted", "refutation"), ("init_caps_refuted", "refutation"),
             ("session_example", "example")]
 
